@@ -108,7 +108,10 @@ class KrylovRecorder:
             probe = hermitian(env, f"probe{k}", dim)
             M = (probe, op(probe.clone()))
             out = hermitian(env, f"rho{k + 1}", dim)
-        self.calls.append(SimpleNamespace(M=M, v=v_in, kw=kw, out=out))
+        self.calls.append(SimpleNamespace(M=M, v=v_in, kw=kw, out=out.clone()))  # (a copy: the next call destroys its input)
+        # krylov_exp documents that its input tensor "becomes invalid" (the real one normalises it in place):
+        # the stub honours that contract in the bluntest way, so code that still needs the tensor is exposed
+        v *= 0
         return out
 
 
